@@ -53,6 +53,14 @@ def generate_process(r):
             "method": r.choice(["adaptednd", "adaptednd", "inversion"])}
 
 
+def enlarge(proc, r):
+    """C02 only: now and then a LARGE grid for the inversion sampler (its state enumeration walks the shells of the
+    pairing function far beyond the first few: 19 points per axis in 3 dimensions = 6858 states, 41 in 2 dimensions)"""
+    if proc["method"] == "inversion" and proc["grid"]["kind"] == "fixed" and r.random() < 0.25:
+        proc["grid"]["n"] = 19 if len(proc["margins"]) == 3 else r.choice([19, 41])
+    return proc
+
+
 def execute(wd, sc):
     V, errors = [], []
     spec = sc["process"]
@@ -224,7 +232,12 @@ def execute(wd, sc):
                 for st in do_sample(fresh, us, "lattice sweep"):
                     counts[st] = counts.get(st, 0) + 1
             wd.probes["c02.nd_sweep_done"] += 1
-            tol = 2.0 * (K + 1) / M + 1e-12
+            # inversion: the uniforms sent to a state form ONE interval, so a midpoint lattice of M points hits it
+            # floor or ceil of p*M times (one more point of slack for the rounding of the cumulated sums); the tree
+            # consumes several uniforms per state: its one-uniform lattice is decided to 2(K+1)/M only
+            tol = (3.0 / M if method == "inversion" else 2.0 * (K + 1) / M) + 1e-12
+            if method == "inversion" and K > 1000:
+                wd.probes["c02.nd_large_grid_sweep"] += 1
             worst, werr = None, 0.0
             for st in set(p) | set(counts):
                 e = abs(counts.get(st, 0) / M - p.get(st, 0.0))
